@@ -315,11 +315,7 @@ impl Instruction
 						{
 							let dst = Register::try_from((((instr0 >> 0) & 0b111) | ((instr0 >> 4) & 0b1000)) as u8).unwrap();
 							let rhs = Register::try_from(((instr0 >> 3) & 0b1111) as u8).unwrap();
-							if dst < Register::R8 && rhs < Register::R8
-							{
-								return Err(DecodeError::Unpredictable{instr0, instr1: None});
-							}
-							if dst == Register::PC || rhs == Register::PC
+							if dst == Register::PC && rhs == Register::PC
 							{
 								return Err(DecodeError::Unpredictable{instr0, instr1: None});
 							}
